@@ -24,6 +24,8 @@ type TrieOp struct {
 	ArgQ     string `json:"arg_q,omitempty"`    // readable copy, ignored on replay
 	Scribble bool   `json:"scribble,omitempty"` // overwrite the caller's buffer right after the call returned
 	Reuse    bool   `json:"reuse,omitempty"`    // the argument is passed in the caller's one long-lived buffer (as a loop over a read buffer does)
+	Nested   int    `json:"nested,omitempty"`   // k>0: after the step, a ForEach nested in the callback of another at member k-1
+	N        int    `json:"n,omitempty"`        // churn: how many filler sequences are added and deleted again
 }
 
 // TrieCase is a history plus the observation universe and the key order plan.
@@ -37,7 +39,10 @@ type TrieCase struct {
 func (t *TrieCase) size() int {
 	n := len(t.Alphabet)
 	for _, o := range t.Ops {
-		n += 1 + len(o.Arg)
+		n += 1 + len(o.Arg) + o.N/1000
+		if o.Nested > 0 {
+			n++
+		}
 		if o.Scribble {
 			n++
 		}
@@ -50,6 +55,12 @@ func (t *TrieCase) String() string {
 	fmt.Fprintf(&b, "alphabet=%q ", t.Alphabet)
 	for _, o := range t.Ops {
 		fmt.Fprintf(&b, "%s(%q)", o.Op, o.Arg)
+		if o.N > 0 {
+			fmt.Fprintf(&b, "x%d", o.N)
+		}
+		if o.Nested > 0 {
+			fmt.Fprintf(&b, "^%d", o.Nested)
+		}
 		if o.Scribble {
 			b.WriteString("~")
 		}
@@ -173,6 +184,40 @@ func (t *TrieCase) universe() []string {
 	return out
 }
 
+// nestedForEach: an outer ForEach whose callback, at the member with index at, runs
+// a complete inner ForEach on the same trie (read-only nesting, as in a double loop
+// over the members). Both walks must report exactly the members.
+func nestedForEach(t *trie.Trie, m setModel, at int, step int) *Verdict {
+	want := m.sorted()
+	var outer, inner []string
+	t.ForEach(func(b []byte) bool {
+		outer = append(outer, string(b))
+		if len(outer)-1 == at {
+			t.ForEach(func(c []byte) bool {
+				inner = append(inner, string(c))
+				return len(inner) <= len(m)+1000
+			})
+		}
+		return len(outer) <= len(m)+1000
+	})
+	sort.Strings(outer)
+	sort.Strings(inner)
+	for name, got := range map[string][]string{"outer": outer, "inner": inner} {
+		if name == "inner" && at >= len(want) {
+			continue
+		}
+		same := len(got) == len(want)
+		for i := 0; same && i < len(got); i++ {
+			same = got[i] == want[i]
+		}
+		if !same {
+			return &Verdict{Clause: "C15.foreach", Key: "C15.foreach", Detail: fmt.Sprintf("after step %d: with a ForEach nested inside the callback of another (at member %d), the %s walk did not report exactly the members", step, at, name),
+				Expected: quoteAll(want), Observed: quoteAll(got)}
+		}
+	}
+	return nil
+}
+
 // observe compares one trie with the model completely.
 func observeTrie(t *trie.Trie, m setModel, uni []string, step int, who string) *Verdict {
 	for _, x := range uni {
@@ -284,7 +329,37 @@ func execC15Trace(c *Case, tr *trieTrace) (v *Verdict) {
 					tr.probes.Inc("fault_fired/caller_buffer_scribbled")
 				}
 			}
-		case "restart", "restart0", "restartm":
+		case "churn":
+			// many short-lived members: N fillers under a prefix nothing else uses are added and
+			// deleted again (every Delete succeeds); the set is unchanged afterwards. Counters
+			// and pools inside an implementation see N+N calls.
+			for k := 0; k < op.N; k++ {
+				t.Add([]byte{0xFD, byte(k >> 16), byte(k >> 8), byte(k)})
+			}
+			for k := 0; k < op.N; k++ {
+				if !t.Delete([]byte{0xFD, byte(k >> 16), byte(k >> 8), byte(k)}) {
+					return &Verdict{Clause: "C15.delete-result", Key: "C15.delete-result", Detail: fmt.Sprintf("step %d: Delete of filler %d of %d returned false", i, k, op.N)}
+				}
+			}
+			// model: a member that is a prefix of a filler was absorbed by it, a member that a
+			// filler is a prefix of was deleted with it; everything else is untouched
+			for x := range m {
+				if len(x) == 0 || x[0] != 0xFD {
+					continue
+				}
+				k, sh := 0, 16
+				for j := 1; j < len(x) && j < 4; j++ {
+					k |= int(x[j]) << sh
+					sh -= 8
+				}
+				if k < op.N {
+					delete(m, x)
+				}
+			}
+			if tr != nil {
+				tr.probes.Inc("fault_fired/churn_of_many_short_lived_members")
+			}
+		case "restart", "restart0", "restartm", "restarti", "restarte":
 			var data []byte
 			var err error
 			if op.Op == "restartm" {
@@ -302,6 +377,21 @@ func execC15Trace(c *Case, tr *trieTrace) (v *Verdict) {
 					held = append(held, second)
 					if tr != nil {
 						tr.probes.Inc("fault_fired/json_form_held_across_later_marshal_calls")
+					}
+				}
+			} else if op.Op == "restarti" {
+				// the JSON form as encoding/json re-indents it (tabs, or spaces and CRLF-free newlines)
+				data, err = json.MarshalIndent(t, "", []string{"\t", "  "}[i%2])
+			} else if op.Op == "restarte" {
+				// the trie as a field of an enclosing document
+				var doc []byte
+				doc, err = json.MarshalIndent(map[string]any{"name": "x", "trie": t, "z": []int{1}}, " ", "\t")
+				if err == nil {
+					var back struct {
+						Trie json.RawMessage `json:"trie"`
+					}
+					if err = json.Unmarshal(doc, &back); err == nil {
+						data = back.Trie
 					}
 				}
 			} else {
@@ -347,6 +437,14 @@ func execC15Trace(c *Case, tr *trieTrace) (v *Verdict) {
 		if v := observeTrie(t, m, uni, i, op.Op); v != nil {
 			return v
 		}
+		if op.Nested > 0 {
+			if v := nestedForEach(t, m, op.Nested-1, i); v != nil {
+				return v
+			}
+			if tr != nil {
+				tr.probes.Inc("fault_fired/foreach_nested_in_foreach")
+			}
+		}
 		if tr != nil {
 			after := stateHash()
 			tr.states[after] = struct{}{}
@@ -386,7 +484,7 @@ func shrinkTrie(c *Case, try func(*Case) bool) bool {
 			}
 			any = true
 		}
-		if c.Trie.Ops[i].Op == "restart0" || c.Trie.Ops[i].Op == "restartm" {
+		if o := c.Trie.Ops[i].Op; o == "restart0" || o == "restartm" || o == "restarti" || o == "restarte" {
 			d := c.Clone()
 			d.Trie.Ops[i].Op = "restart"
 			if try(d) {
@@ -396,6 +494,13 @@ func shrinkTrie(c *Case, try func(*Case) bool) bool {
 		if c.Trie.Ops[i].Reuse {
 			d := c.Clone()
 			d.Trie.Ops[i].Reuse = false
+			if try(d) {
+				any = true
+			}
+		}
+		if c.Trie.Ops[i].Nested > 0 {
+			d := c.Clone()
+			d.Trie.Ops[i].Nested = 0
 			if try(d) {
 				any = true
 			}
@@ -449,13 +554,18 @@ func genTrieCase(r *core.Rng, depth int) *TrieCase {
 		pReuse = 0.3 + 0.7*r.Float64()
 	}
 	fanout := r.Chance(0.02) // one node with all 256 children
+	churn := r.Chance(0.004) // counters that wrap, pools that fill: tens of thousands of short-lived members
+	pNested := 0.0
+	if r.Chance(0.3) {
+		pNested = 0.3
+	}
 	var words [][]byte
 	n := r.Range(1, depth)
 	for i := 0; i < n; i++ {
 		x := r.Float64()
 		switch {
 		case x < pRestart:
-			op := core.Pick(r, []string{"restart", "restart", "restart0", "restartm"})
+			op := core.Pick(r, []string{"restart", "restart", "restart0", "restartm", "restarti", "restarte"})
 			tc.Ops = append(tc.Ops, TrieOp{Op: op})
 		default:
 			var w []byte
@@ -486,7 +596,15 @@ func genTrieCase(r *core.Rng, depth int) *TrieCase {
 			if len(w) > 0 {
 				words = append(words, w)
 			}
-			tc.Ops = append(tc.Ops, TrieOp{Op: op, Arg: w, Scribble: r.Chance(pScribble), Reuse: r.Chance(pReuse)})
+			o := TrieOp{Op: op, Arg: w, Scribble: r.Chance(pScribble), Reuse: r.Chance(pReuse)}
+			if r.Chance(pNested) {
+				o.Nested = 1 + r.Intn(4)
+			}
+			tc.Ops = append(tc.Ops, o)
+			if churn && r.Chance(0.25) {
+				tc.Ops = append(tc.Ops, TrieOp{Op: "churn", N: core.Pick(r, []int{255, 256, 257, 65535, 65536, 65536, 65537})})
+				tc.MaxLen = 70
+			}
 		}
 		if fanout && i == n/2 {
 			// every byte value under one prefix: a node with the maximal number of children
